@@ -240,7 +240,7 @@ pub fn judge(c: &Case, r: &RunResult, rec: &CaseRec) -> Check {
                     r.end_us.saturating_sub(last_activity_us(&r.trace)) as f64 / 1e6,
                     r.diag[0],
                     r.diag[1],
-                    describe_trace(&r.trace, 40)
+                    describe_trace_tail(&r.trace, 24)
                 ),
             ));
         }
